@@ -43,7 +43,8 @@ def scenarios(ctx):
     out = []
     files = traffic.t_files()
     if quick:
-        files = [f for i, f in enumerate(files) if i % 6 == r.randrange(6) or os.path.basename(f).startswith(("01", "06", "15", "25"))][:22]
+        # quick: a rotating handful of the captures, but EVERY k for each (a stride would skip exactly the allocation that matters)
+        files = [f for i, f in enumerate(files) if i % 12 == r.randrange(12) or os.path.basename(f).startswith(("01", "15"))][:9]
     for f in files:
         items = traffic.play_items(traffic.parse_t_file(f))
         if not items or sum(len(x) for x in items) > 40000:
@@ -59,6 +60,9 @@ def scenarios(ctx):
          b"Transfer-Encoding: chunked\r\n\r\n5\r\na=1&b\r\n4\r\n=2&c\r\n0\r\n\r\n"
     chunked = b"HTTP/1.1 200 OK\r\nTransfer-Encoding: chunked\r\n\r\n3\r\nabc\r\n0\r\nX-T: 1\r\n\r\n"
     out.append(("urlenc=1,cookies=1,auth=1", "-", [">" + traffic.hx(ue[:60]), ">" + traffic.hx(ue[60:]), "<" + traffic.hx(chunked)], "gen-urlenc"))
+    # empty values, empty names, name-only and repeated parameters, in the query string and in the body
+    q = b"POST /e?k1=&=v&n&k1=2&last= HTTP/1.1\r\nHost: h\r\nContent-Type: application/x-www-form-urlencoded\r\nContent-Length: 17\r\n\r\nx=&=y&z&x=1&tail="
+    out.append(("urlenc=1", "-", [">" + traffic.hx(q), "<" + traffic.hx(ok)], "gen-urlenc-empty"))
     pipe = b"".join(b"GET /%d HTTP/1.1\r\nHost: h\r\n\r\n" % i for i in range(3))
     out.append(("autodestroy=1", "-", [">" + traffic.hx(pipe)] + ["<" + traffic.hx(ok)] * 3, "gen-pipeline"))
     con = b"CONNECT h:443 HTTP/1.1\r\nHost: h:443\r\n\r\nGET /after HTTP/1.1\r\nHost: h\r\n\r\n"
@@ -114,7 +118,7 @@ def run(ctx, model_ok=True, proofs_broken=False):
     # ---- 2. the sweep. A sanitizer abort ends the harness process; the sweep is resumed behind the failing (scenario, k) so that
     # one defect does not hide the scenarios after it.
     scs = scenarios(ctx)
-    lim = (400, 7) if quick else (0, 0)
+    lim = (0, 0)
     total_runs = total_allocs = fired = leaks_observed = 0
     per = []
     crashes = {}
@@ -162,7 +166,7 @@ def run(ctx, model_ok=True, proofs_broken=False):
             ctx.violation("sweep-crash", dict(items[0], count=len(items)), found_input=True, sig=sig)
     ctx.cov.update({"evaluations": total_runs + len(own_lines), "distinct_nontrivial": len(set(co)), "programs": len(scs),
                     "rule": "ownership traces: 5 function groups x every k from 0 to past the last allocation, implementation vs Lean model; "
-                            "sweep: every scenario x every k up to the allocation count of its fault-free run (quick: k<=400, stride 7 above 64), "
+                            "sweep: every scenario x every k up to the allocation count of its fault-free run (quick: fewer scenarios, still every k), "
                             "ASan+UBSan+LSan, leak check after every run",
                     "ownership_lines": len(own_lines), "ownership_disagreements": ndis, "sweep_scenarios": len(scs),
                     "sweep_runs": total_runs, "allocations_in_fault_free_runs": total_allocs, "faults_fired": fired, "leaks_after_failed_allocation_observed": leaks_observed,
